@@ -112,6 +112,17 @@ def _variants(n_steps):
     var("init_error_large", lambda c: c["noise"].update(init_position_std_km=5.0))
     var("output_300", lambda c: c["time"].update(output_step_sec=300))
     var("output_420", lambda c: c["time"].update(output_step_sec=420))
+    # output steps that are NOT multiples of the physics step (gcd < physics step): the physics step stays what it is
+    var("output_90", lambda c: c["time"].update(output_step_sec=90))
+    var("output_100", lambda c: c["time"].update(output_step_sec=100))
+
+    # an estimate that sits within centimetres of the truth and uses the same force model: anything the force model
+    # remembers between calls (per field point, per epoch) then leaks from the filter's jobs into the truth's
+    def tight_sp_filter(c):
+        sf(c).update(dynamics_model="special_perturbations")
+        c["noise"].update(init_position_std_km=1e-5, init_velocity_std_km_p_sec=1e-8)
+
+    var("filter_sp_tight_prior", tight_sp_filter)
     var("no_background", lambda c: c.update(observation={"background": False, "realtime_observation": True}))
     var("no_realtime_observation", lambda c: c.update(observation={"background": True, "realtime_observation": False}))
     for a in range(1, n_steps):
